@@ -21,7 +21,8 @@ RULE = ("Hypothesis: 1-4 integer-tick well-formed single-channel sequences (arbi
         "there, the in-force function of keys equals the saved one; other sequences carry no signatures. Non-trivial: >= 2 "
         "sequences, a signature on a sequence other than the meta target, and a simultaneous event pair. Distinct by digest.")
 ASSUMPTIONS = ["mido's MIDI file writer/reader is trusted", "trailing rests are not stored by the writer and not part of the statement"]
-TIERS = {"quick": dict(shards=8, examples=400), "thorough": dict(shards=16, examples=5000)}
+TIERS = {"quick": dict(shards=8, examples=400, alt_ppqn=[480], alt_shards=2),
+         "thorough": dict(shards=16, examples=5000, alt_ppqn=[480, 7, 1000], alt_shards=4)}
 
 
 @st.composite
